@@ -157,6 +157,8 @@ pub struct EpCfg {
     pub max_timer_fires: u8,
     pub max_send_fails: u8,
     pub max_partials: u8,
+    /// one-step raw stimuli fired from every reachable state (C05 / C17); (label, bytes)
+    pub stimuli: Arc<Vec<(String, Vec<u8>)>>,
 }
 
 impl EpCfg {
@@ -179,6 +181,7 @@ impl EpCfg {
             max_timer_fires: 2,
             max_send_fails: 1,
             max_partials: 1,
+            stimuli: Arc::new(vec![]),
         }
     }
     pub fn on(&self, g: &str) -> bool {
@@ -226,6 +229,8 @@ pub enum Act {
     PAuth,
     /// first `k` bytes of a PUBLISH q0 frame, then nothing (frame cut by the transport)
     PPartial(u8),
+    /// raw stimulus number i of the configuration's stimulus list (probe)
+    PRaw(u16),
 }
 
 pub fn act_kind(a: &Act) -> String {
@@ -259,6 +264,7 @@ pub fn act_kind(a: &Act) -> String {
         Act::PDisconnect => "PDisconnect".into(),
         Act::PAuth => "PAuth".into(),
         Act::PPartial(_) => "PPartial".into(),
+        Act::PRaw(_) => "PRaw".into(),
     }
 }
 
@@ -560,6 +566,103 @@ impl<P: Pid> Ep<P> {
         }
     }
 
+    /// C05 stimulus: feed raw bytes, check the one-step oracle, then the fixed follow-up (close,
+    /// fresh handshake in the object's role must succeed).
+    fn step_raw(&mut self, i: usize, out: &mut StepOut) {
+        crate::rules::reset();
+        let (label, bytes) = self.cfg.stimuli[i].clone();
+        let pre_m = self.m.clone();
+        let ver_for_decode = self.m.ver.unwrap_or(Ver::V4);
+        let stored = self.conn.snap().store.len();
+        let (lists, _n) = self.conn.recv_all(&bytes);
+        self.m.link_up = true;
+        let mut rules = Rules { out, cfg: self.cfg.clone(), act: Act::PRaw(i as u16) };
+        // which complete frames does the stimulus contain (reference framing)?
+        let mut off = 0usize;
+        let mut frames: Vec<Option<(Vec<u8>, Option<AP>)>> = vec![];
+        while off < bytes.len() {
+            match rc::frame_one(&bytes[off..]) {
+                rc::Framed::Frame { ty, flags, body, used, .. } => {
+                    let ap = rc::decode_body(ver_for_decode, ty, flags, &body, P::W).ok();
+                    frames.push(Some((bytes[off..off + used].to_vec(), ap)));
+                    off += used;
+                }
+                rc::Framed::BadLength { used } => {
+                    frames.push(None);
+                    off += used;
+                }
+                rc::Framed::Incomplete => break,
+            }
+        }
+        for (k, evs) in lists.iter().enumerate() {
+            let c = Call { kind: CallKind::Recv { frame: frames.get(k).and_then(|f| f.as_ref().map(|x| x.0.clone())).unwrap_or_default(), ap: None }, evs: evs.clone() };
+            rules.out.say(|| format!("stimulus {label}: {}", c.describe()));
+            if evs.len() > 16 + 2 * stored {
+                rules.viol("c05.event-bound", &pre_m, format!("one recv call returned {} events (stored packets: {stored}) for stimulus {label}", evs.len()));
+            }
+            // a complete frame must be delivered, answered as a duplicate, or reported
+            if let Some(Some((_f, _ap))) = frames.get(k) {
+                let delivered = !c.recvs().is_empty();
+                let dup_answer = c.sends().iter().any(|a| matches!(a, AP::Ack { kind: AckKind::Pubrec, .. } | AP::Ack { kind: AckKind::Pubcomp, .. }));
+                if !delivered && !c.has_error() && !dup_answer {
+                    let f = &frames[k].as_ref().unwrap().0;
+                    rules.viol_sig("c05.unclassified", crate::rules::unclassified_sig(f[0], &pre_m), &pre_m, format!("complete frame of stimulus {label} was neither delivered, answered as a duplicate nor reported: {}", c.describe()));
+                } else {
+                    rules.label(if delivered { "c05.stim-delivered" } else if c.has_error() { "c05.stim-reported" } else { "c05.stim-dup-answered" });
+                }
+            } else if frames.get(k).map(|f| f.is_none()).unwrap_or(false) {
+                if !c.has_error() {
+                    rules.viol("c05.bad-length-unreported", &pre_m, format!("a Remaining Length longer than four bytes was not reported: {}", c.describe()));
+                }
+                rules.label("c05.stim-bad-length");
+            }
+            crate::rules::close_order_pub(&pre_m, &c, &mut rules);
+        }
+        if lists.iter().all(|l| l.is_empty()) {
+            rules.label("c05.stim-incomplete");
+        }
+        // follow-up: the application closes, reports it, and connects again
+        let _ = self.conn.notify_closed();
+        let after_close = self.conn.snap();
+        if after_close.status != 0 || after_close.pingreq_send_set || after_close.pingreq_recv_set || after_close.pingresp_recv_set {
+            rules.viol("c05.not-closed", &pre_m, format!("after notify_closed() status={} timers={}/{}/{}", after_close.status, after_close.pingreq_send_set, after_close.pingreq_recv_set, after_close.pingresp_recv_set));
+        }
+        // an undetermined-version server keeps the version it adopted from a CONNECT
+        let hv = match after_close.protocol_version {
+            4 => Ver::V4,
+            5 => Ver::V5,
+            _ => self.m.ver.or(self.cfg.ver).unwrap_or(Ver::V4),
+        };
+        if self.can_be_client() && (self.cfg.ver.is_some() || self.m.ver.is_some()) {
+            let mut c = self.conn.clone();
+            let p = bridge::build::<P>(&ConnProf::basic(true).ap(hv)).ok().expect("connect");
+            let evs = c.send(p);
+            if !evs.iter().any(|e| e.is_send_of(1)) {
+                rules.viol("c05.wedged", &pre_m, format!("after stimulus {label} + notify_closed() a new CONNECT is refused: {:?}", evs.iter().map(|e| e.short()).collect::<Vec<_>>()));
+            } else {
+                let (l, _) = c.recv_all(&rc::encode(&AckProf::basic(false).ap(hv), P::W));
+                if !l.iter().flatten().any(|e| e.is_recv_of(2)) {
+                    rules.viol("c05.wedged", &pre_m, format!("after stimulus {label} + notify_closed() + CONNECT the CONNACK is not delivered: {:?}", l.iter().flatten().map(|e| e.short()).collect::<Vec<_>>()));
+                }
+                rules.label("c05.followup-client-handshake");
+            }
+        }
+        if self.can_be_server() {
+            let mut c = self.conn.clone();
+            let (l, _) = c.recv_all(&rc::encode(&ConnProf::basic(true).ap(hv), P::W));
+            if !l.iter().flatten().any(|e| e.is_recv_of(1)) {
+                rules.viol("c05.wedged", &pre_m, format!("after stimulus {label} + notify_closed() a new CONNECT is not delivered: {:?}", l.iter().flatten().map(|e| e.short()).collect::<Vec<_>>()));
+            } else {
+                let p = bridge::build::<P>(&AckProf::basic(false).ap(hv)).ok().expect("connack");
+                let evs = c.send(p);
+                if !evs.iter().any(|e| e.is_send_of(2)) {
+                    rules.viol("c05.wedged", &pre_m, format!("after stimulus {label} + close + CONNECT the CONNACK cannot be sent: {:?}", evs.iter().map(|e| e.short()).collect::<Vec<_>>()));
+                }
+                rules.label("c05.followup-server-handshake");
+            }
+        }
+    }
+
     fn peer_frame(&self, a: &Act) -> Option<AP> {
         let ver = self.ver();
         Some(match a {
@@ -782,7 +885,22 @@ impl<P: Pid> World for Ep<P> {
         v
     }
 
+    fn probes(&self) -> Vec<Act> {
+        let m = &self.m;
+        if self.cfg.stimuli.is_empty() || m.close_pending || m.partial_pending {
+            return vec![];
+        }
+        (0..self.cfg.stimuli.len()).map(|i| Act::PRaw(i as u16)).collect()
+    }
+
+    fn label(a: &Act) -> String {
+        format!("{a:?}")
+    }
+
     fn step(&mut self, a: &Act, out: &mut StepOut) {
+        if let Act::PRaw(i) = a {
+            return self.step_raw(*i as usize, out);
+        }
         crate::rules::reset();
         let pre = self.conn.snap();
         let pre_m = self.m.clone();
@@ -942,8 +1060,25 @@ impl<P: Pid> World for Ep<P> {
         crate::util::fp128(&(self.conn.snap(), &self.m))
     }
 
-    fn sig_label(a: &Act) -> String {
-        act_kind(a)
+    fn sig_label(&self, a: &Act) -> String {
+        act_sig(&self.cfg, a)
+    }
+}
+
+/// abstract action label for signatures; raw stimuli are named by their class (mutations of one
+/// seed share a class)
+pub fn act_sig(cfg: &EpCfg, a: &Act) -> String {
+    match a {
+        Act::PRaw(i) => {
+            let l = cfg.stimuli.get(*i as usize).map(|s| s.0.as_str()).unwrap_or("?");
+            let (base, mutated) = match l.split_once(" ~") {
+                Some((b, _)) => (b, true),
+                None => (l, false),
+            };
+            let base = if base.starts_with("raw ") { "raw-prefix" } else { base };
+            format!("PRaw({}{})", base, if mutated { " ~mutated" } else { "" })
+        }
+        _ => act_kind(a),
     }
 }
 
@@ -960,7 +1095,16 @@ impl<'a> Rules<'a> {
         if !self.cfg.on(group) {
             return;
         }
-        let sig = format!("{}|{}|v{}|{:?}|{}", rule, act_kind(&self.act), m.ver.map(|v| v.level()).unwrap_or(0), m.st, if m.as_client { "client" } else { "server" });
+        let sig = format!("{}|{}|v{}|{:?}|{}", rule, act_sig(&self.cfg, &self.act), m.ver.map(|v| v.level()).unwrap_or(0), m.st, if m.as_client { "client" } else { "server" });
+        self.out.viol(rule, sig, format!("[{}] {}", self.cfg.name, detail));
+    }
+    /// like `viol` but with a caller-supplied signature (coarser or finer than the default)
+    pub fn viol_sig(&mut self, rule: &str, sig: String, m: &Mdl, detail: String) {
+        let group = rule.split('.').next().unwrap_or("");
+        if !self.cfg.on(group) {
+            return;
+        }
+        let _ = m;
         self.out.viol(rule, sig, format!("[{}] {}", self.cfg.name, detail));
     }
     pub fn label(&mut self, l: &'static str) {
